@@ -17,7 +17,9 @@ A multi-layer operation is a walk over the layers plus one access to the promoti
 contains / remove / clear`) announces when it returns (verif-hooks).  Inside a per-layer call the
 thread runs the MemoryCache operation of Model/MemConc (`startOp` / `contOp`), cut at the `mem.*`
 schedule points.  So one step of a thread = one access to one layer's map, one counter update of
-a layer, or the tracker access.
+a layer, or the tracker access (the step that follows the last per-layer call of `contains`, of
+a `get` that missed everywhere and of `put_to_layer` only returns the answer).  `new` refuses an
+empty layer list, so `layers ≠ []` in every state the run reaches.
 
 Shared state: the layers (`MemCache.State` each, one logical clock ticking in all of them at every
 step) and the SET of keys that have a tracker entry (hit counts, time stamps and `current_layer`
